@@ -176,7 +176,9 @@ theorem rk2_exact (a0 a1 : K) :
     ExactStep (fun t => a0 * t + a1 * t ^ 2 / 2) (rk2Step (fun t => a0 + a1 * t)) := by
   intro h t y
   simp only [rk2Step, Gen.rk2_t1, Gen.rk2_y1, fnWith, List.headD_cons, Prod.mk.injEq]
-  constructor <;> ring
+  refine ⟨?_, ?_⟩
+  · first | trivial | ring
+  · ring
 
 /-- RungeKutta4 (order 4) integrates `y' = a₀ + a₁ t + a₂ t² + a₃ t³` exactly -/
 theorem rk4_exact (a0 a1 a2 a3 : K) :
@@ -184,7 +186,9 @@ theorem rk4_exact (a0 a1 a2 a3 : K) :
       (rk4Step (fun t => a0 + a1 * t + a2 * t ^ 2 + a3 * t ^ 3)) := by
   intro h t y
   simp only [rk4Step, Gen.rk4_t1, Gen.rk4_y1, fnWith, List.headD_cons, Prod.mk.injEq]
-  constructor <;> ring
+  refine ⟨?_, ?_⟩
+  · first | trivial | ring
+  · ring
 
 /-- the quadrature behind a RungeKutta4 step for an arbitrary right-hand side `P(t)`: Simpson,
 i.e. `b = (1/6, 1/3, 1/3, 1/6)`, `c = (0, 1/2, 1/2, 1)` -/
